@@ -149,6 +149,8 @@ func runC04(c *Ctx) {
 			c.ok("R04.11", "HTTP exchange", "-", "no (*http.Client).Do in the library package")
 		}
 	}
+	c.rule("R04.12", "the transport function hands the call's request to the connection loop once (re-sending is decided only by the tagged retry loop)")
+	c.enqueuedOnce("R04.12")
 	c.rule("R04.9", "every proxy field gets a call descriptor of its own (its retry / notify flags are not shared with other fields)")
 	c.descriptorPerField("R04.9")
 	c.rule("R04.8", "inbound frames are decoded into fresh memory")
@@ -788,5 +790,81 @@ func (c *Ctx) encodersRunOnce(rule string) {
 		} else {
 			c.ok(rule, construct, c.ipos(e), "only before the first transport send")
 		}
+	}
+}
+
+// enqueuedOnce: R04.12. The transport function (doRequest) hands the call's request to the connection
+// loop once; whether a failed call is sent again is decided one level up, in the call function's retry
+// loop, under the retry tag and the temporary-connection code (R04.1). A second hand-over of the same
+// request inside the transport function ("it never left the process, hand it in again") is a re-send
+// no tag controls — and when the bookkeeping that says "never left" is wrong, the handler runs twice.
+func (c *Ctx) enqueuedOnce(rule string) {
+	p, r := c.P, c.R
+	if r.FRequests == nil && r.TCreq == nil {
+		c.und(rule, "request queue", "-", "not resolved")
+		return
+	}
+	n := 0
+	for _, fn := range p.Funcs {
+		if pkgOf(fn) != p.Root.Pkg {
+			continue
+		}
+		// request-typed parameters of this function (the call's own request)
+		var reqParams []*ssa.Parameter
+		for _, prm := range fn.Params {
+			if r.TCreq != nil && prm.Type() == types.Type(r.TCreq) {
+				reqParams = append(reqParams, prm)
+			}
+		}
+		if len(reqParams) == 0 {
+			continue
+		}
+		sites := map[*ssa.Parameter][]ssa.Instruction{}
+		allInstrsRaw(fn, func(in ssa.Instruction) {
+			var sent []ssa.Value
+			switch x := in.(type) {
+			case *ssa.Send:
+				sent = append(sent, x.X)
+			case *ssa.Select:
+				for _, st := range x.States {
+					if st.Dir == types.SendOnly {
+						sent = append(sent, st.Send)
+					}
+				}
+			}
+			for _, v := range sent {
+				if r.TCreq == nil || v.Type() != types.Type(r.TCreq) {
+					continue
+				}
+				for _, prm := range reqParams {
+					if c.isParamOrForwarded(v, prm) {
+						sites[prm] = append(sites[prm], in)
+					}
+				}
+			}
+		})
+		for prm, ss := range sites {
+			n++
+			construct := fmt.Sprintf("%s: hand-over of the call's request to the connection loop", fname(fn))
+			again := false
+			for _, s := range ss {
+				s := s
+				if reachFrom(s, func(x ssa.Instruction) bool {
+					for _, t := range ss {
+						if t == x {
+							return true
+						}
+					}
+					return false
+				}, nil) != nil {
+					again = true
+				}
+			}
+			_ = prm
+			c.check(len(ss) == 1 && !again, rule, construct, c.ipos(ss[0]), "one site, not repeated", "the transport function can hand the same request to the connection loop more than once (re-submitting it after a locally generated failure): a re-send outside the retry-tag gate — when the request had in fact been written, the handler runs twice for an untagged call")
+		}
+	}
+	if n == 0 {
+		c.und(rule, "hand-over of requests", "-", "no function enqueueing its request parameter found")
 	}
 }
